@@ -157,7 +157,8 @@ def delete_sites_rule(ctx):
         # whole work directories (the recorded state of *every* target of a project) and declared outputs are only ever removed by main (`--clean`): the
         # engine itself may drop one target's own state file, nothing more
         if role in ("workdir", "output-filtered", "output-plain"):
-            in_main = ds.view.name in (ctx.r.main_async().name, ctx.r.main_body().name)
+            mb = ctx.r.main_body().name
+            in_main = ds.view.name in ({ctx.r.main_async().name, mb} | {n_ for n_, uses in ctx.f.cg.spawn_roots.items() for (how, inb, _) in uses if how == "block_on" and inb == mb})
             ctx.check(in_main, f"{inst}/only-from-main@{k}", [site(ds.view, ds.bb)],
                       ("a whole work directory is removed from inside the engine: the recorded state of targets outside the requested closure (and of other invocations) disappears"
                        if role == "workdir" else "declared outputs are removed from inside the engine"),
@@ -229,7 +230,7 @@ def filter_respected(ctx):
     ctx.need(n >= 3, "deletion sites of the output cleaners")
 
 
-@rule("C12.SCOPE", ["C12"], """in main everything destructive happens under --clean: state deletion of the resolved targets when targets were requested, work-dir removal of the loaded
+@rule("C12.SCOPE", ["C12", "C18"], """in main everything destructive happens under --clean: state deletion of the resolved targets when targets were requested, work-dir removal of the loaded
       project directories when none was, output cleaning of the resolved targets""", "K1", floor=3)
 def scope(ctx):
     r = ctx.r
@@ -249,38 +250,62 @@ def scope(ctx):
                     if nm:
                         clean_locals.add(nm)
         Gc = guard_region(ma, lambda d: d[0] == "field" and any(d[1] == n or n in d[1] for n in clean_locals), True)
-    ctx.need(Gc, "region of main guarded by the --clean flag")
-    # the captured variables of main's async block, identified by what they hold (not by their names): the requested names (an Option deriving from
+    # the captured variables of an async block of main, identified by what they hold (not by their names): the requested names (an Option deriving from
     # the TARGETS argument), the resolved targets (map TargetId -> Target), the loaded project directories (collection of paths)
     m = r.main_body()
     mraw = f.bodies[m.name]
-    cap = None
-    for blk in mraw.normal_blocks():
-        for st in blk["stmts"]:
-            if st["rv"]["k"] == "agg" and st["rv"].get("coroutine") == ma.name:
-                cap = st
-    ctx.need(cap, "construction of main's async block")
-    req_names, tgt_names, dir_names = set(), set(), set()
-    req_true, req_false = set(), set()
-    for nm, o in zip(cap["rv"].get("fields") or [], cap["rv"]["ops"]):
-        l = operand_local(o)
-        ty = mraw.locals[l]["ty"] if l is not None else ""
-        at = mraw.prov.operand_atoms(o)
-        from_targets_arg = any(c.endswith("ArgMatches::values_of_lossy") or c.endswith("ArgMatches::values_of") for c in atom_callres(at)) and any(a[0] == "static" and a[1].endswith("TARGETS") for a in at)
-        if re.search(r"Option<", ty) and from_targets_arg:
-            req_names.add(nm)
-        if ty.replace("&", "").replace("mut ", "").strip() == "bool" and from_targets_arg and l is not None:
-            # `let requested = requested_targets.is_some()` bound before the async block
-            for o_ in origins(mraw, l):
-                if o_[0] == "call" and o_[1].endswith("::is_some"):
-                    req_true.add(nm)
-                if o_[0] == "call" and o_[1].endswith("::is_none"):
-                    req_false.add(nm)
-        if re.search(r"HashMap<[\w:]*TargetId, [\w:]*Target>", ty):
-            tgt_names.add(nm)
-        if re.search(r"(Vec|HashSet|BTreeSet)<[\w:]*PathBuf>", ty):
-            dir_names.add(nm)
-    ctx.need((req_names or req_true or req_false) and tgt_names and dir_names, f"captured requested names / resolved targets / project directories of main's async block (found {sorted(req_names)}, {sorted(tgt_names)}, {sorted(dir_names)})")
+    def captures(block_name):
+        cap = None
+        for blk in mraw.normal_blocks():
+            for st in blk["stmts"]:
+                if st["rv"]["k"] == "agg" and st["rv"].get("coroutine") == block_name:
+                    cap = st
+        req_names, tgt_names, dir_names = set(), set(), set()
+        req_true, req_false = set(), set()
+        if cap is None:
+            return None
+        for nm, o in zip(cap["rv"].get("fields") or [], cap["rv"]["ops"]):
+            l = operand_local(o)
+            ty = mraw.locals[l]["ty"] if l is not None else ""
+            at = mraw.prov.operand_atoms(o)
+            from_targets_arg = any(c.endswith("ArgMatches::values_of_lossy") or c.endswith("ArgMatches::values_of") for c in atom_callres(at)) and any(a[0] == "static" and a[1].endswith("TARGETS") for a in at)
+            if re.search(r"Option<", ty) and from_targets_arg:
+                req_names.add(nm)
+            if ty.replace("&", "").replace("mut ", "").strip() == "bool" and from_targets_arg and l is not None:
+                # `let requested = requested_targets.is_some()` bound before the async block
+                for o_ in origins(mraw, l):
+                    if o_[0] == "call" and o_[1].endswith("::is_some"):
+                        req_true.add(nm)
+                    if o_[0] == "call" and o_[1].endswith("::is_none"):
+                        req_false.add(nm)
+            if re.search(r"HashMap<[\w:]*TargetId, [\w:]*Target>", ty):
+                tgt_names.add(nm)
+            if re.search(r"(Vec|HashSet|BTreeSet)<[\w:]*PathBuf>", ty):
+                dir_names.add(nm)
+        return req_names, req_true, req_false, tgt_names, dir_names
+    # a preliminary step of `--clean` may run in an async block of its own, guarded in main's body (`if clean && requested.is_none() { block_on(..) }`)
+    siblings = []
+    for n_, uses in f.cg.spawn_roots.items():
+        for (how, inb, sbb) in uses:
+            if how == "block_on" and inb == m.name and n_ != ma.name:
+                siblings.append((r.V(f.bodies[n_]), sbb))
+    def is_targets_opt(atoms):
+        return any(c.endswith("ArgMatches::values_of_lossy") or c.endswith("ArgMatches::values_of") for c in atom_callres(atoms)) and any(a[0] == "static" and a[1].endswith("TARGETS") for a in atoms)
+    def m_req(which):
+        return lambda d: d[0] == "call" and d[1].endswith("::" + which) and d[2] and is_targets_opt(d[2][0])
+    Mc = guard_region(m, is_clean, True)
+    Ms = guard_region(m, m_req("is_some"), True) | guard_region(m, m_req("is_none"), False)
+    Mn = guard_region(m, m_req("is_some"), False) | guard_region(m, m_req("is_none"), True)
+    ctx.need(Gc or (siblings and Mc), "region of main guarded by the --clean flag")
+    caps = captures(ma.name)
+    ctx.need(caps, "construction of main's async block")
+    req_names, req_true, req_false, tgt_names, dir_names = caps
+    sib_dirs = set()
+    for (sv, sbb) in siblings:
+        c2 = captures(sv.name)
+        if c2:
+            sib_dirs |= c2[4]
+    ctx.need((req_names or req_true or req_false) and tgt_names and (dir_names or sib_dirs), f"captured requested names / resolved targets / project directories of main's async block (found {sorted(req_names)}, {sorted(tgt_names)}, {sorted(dir_names | sib_dirs)})")
     def req_test(which):
         def p(d):
             return (d[0] == "call" and d[1].endswith("::" + which) and d[2] and any(a[0] == "field" and a[2] in req_names for a in d[2][0]))
@@ -302,20 +327,43 @@ def scope(ctx):
             for (cv, cbb, ct) in r.callers_of(raw, prefer=[]):
                 if cv.name == ma.name:
                     items.append((cbb, role, r.root_env_fields(cv, ct["args"][0]) if ct["args"] else set(), short(r.fn_of(raw).name)))
+    for (sv, sbb) in siblings:
+        c2 = captures(sv.name) or (set(),) * 5
+        for ds in delete_sites(ctx):
+            role = classify_delete_site(ctx, ds)
+            sites_here = []
+            if ds.view.name == sv.name:
+                sites_here.append((ds.bb, r.root_env_fields(ds.view, ds.path_op)))
+            else:
+                for (cv, cbb, ct) in r.callers_of(f.bodies[ds.view.name], prefer=[]):
+                    if cv.name == sv.name:
+                        sites_here.append((cbb, r.root_env_fields(cv, ct["args"][0]) if ct["args"] else set()))
+            for (xbb, ups) in sites_here:
+                n += 1
+                lab = short(r.outer_fn(ds.raw).name)
+                if role == "workdir":
+                    ctx.check(sbb in Mc and sbb in Mn and bool(set(ups) & c2[4]), f"main/{lab}@{role}", [site(sv, xbb)], "work directories are removed outside `--clean` without targets, or not for the loaded project directories", props=["C12", "C18"])
+                elif role == "state":
+                    ctx.check(sbb in Mc and sbb in Ms and bool(set(ups) & c2[3]), f"main/{lab}@{role}", [site(sv, xbb)], "recorded state is deleted outside `--clean <targets>` or not for the resolved targets", props=["C12"])
+                else:
+                    ctx.check(sbb in Mc and bool(set(ups) & c2[3]) and role in ("output-filtered", "output-plain"), f"main/{lab}@{role}@sibling", [site(sv, xbb)], "outputs are cleaned outside `--clean` or not for the resolved targets", props=["C12"])
+                items.append((None, role, ups, lab))
     for (bb, role, ups, lab) in items:
+        if bb is None:
+            continue
         n += 1
         if role == "state":
-            ctx.check(bb in Gc and bb in Gs and bool(set(ups) & tgt_names), f"main/{lab}@{role}", [site(ma, bb)], "recorded state is deleted outside `--clean <targets>` or not for the resolved targets")
+            ctx.check(bb in Gc and bb in Gs and bool(set(ups) & tgt_names), f"main/{lab}@{role}", [site(ma, bb)], "recorded state is deleted outside `--clean <targets>` or not for the resolved targets", props=["C12"])
         elif role == "workdir":
-            ctx.check(bb in Gc and bb in Gn and bool(set(ups) & dir_names), f"main/{lab}@{role}", [site(ma, bb)], "work directories are removed outside `--clean` without targets, or not for the loaded project directories")
+            ctx.check(bb in Gc and bb in Gn and bool(set(ups) & dir_names), f"main/{lab}@{role}", [site(ma, bb)], "work directories are removed outside `--clean` without targets, or not for the loaded project directories", props=["C12", "C18"])
         else:
-            ctx.check(bb in Gc and bool(set(ups) & tgt_names) and role in ("output-filtered", "output-plain"), f"main/{lab}@{role}@{bb}", [site(ma, bb)], "outputs are cleaned outside `--clean` or not for the resolved targets")
+            ctx.check(bb in Gc and bool(set(ups) & tgt_names) and role in ("output-filtered", "output-plain"), f"main/{lab}@{role}@{bb}", [site(ma, bb)], "outputs are cleaned outside `--clean` or not for the resolved targets", props=["C12"])
     ctx.need(n >= 3, "destructive sites in main")
     # each part of `--clean` is there at all: without the state deletion `--clean T` would skip T; without the work-dir removal `--clean` keeps records
     seen = {role for (bb, role, ups, lab) in items}
-    ctx.check("state" in seen, "main/forgets-state-of-requested", [ma.loc()], "`--clean <targets>` does not delete the recorded state of the resolved targets: they could be skipped instead of being rebuilt")
-    ctx.check("workdir" in seen, "main/forgets-all-state", [ma.loc()], "`--clean` without targets does not remove the work directories: recorded state survives a full clean")
-    ctx.check(bool(seen & {"output-filtered", "output-plain"}), "main/cleans-outputs", [ma.loc()], "`--clean` does not remove the declared outputs")
+    ctx.check("state" in seen, "main/forgets-state-of-requested", [ma.loc()], "`--clean <targets>` does not delete the recorded state of the resolved targets: they could be skipped instead of being rebuilt", props=["C12"])
+    ctx.check("workdir" in seen, "main/forgets-all-state", [ma.loc()], "`--clean` without targets does not remove the work directories: recorded state survives a full clean", props=["C12"])
+    ctx.check(bool(seen & {"output-filtered", "output-plain"}), "main/cleans-outputs", [ma.loc()], "`--clean` does not remove the declared outputs", props=["C12"])
 
 
 @rule("C12.WORKDIR-PATH", ["C12", "C16"], """the directory removed by work-dir removal is `<project dir>/.zinoma`, never the project directory itself""", "K5", floor=1)
@@ -358,9 +406,63 @@ def no_follow(ctx):
     ctx.need(walks >= 1, "WalkDir::new call")
     if not bad:
         ctx.ok("walks", [f"{walks} walk(s) examined"], "links are not followed")
+    # ... and no deletion acts on a path that was first resolved through the links it contains (`canonicalize`, `read_link`): removing a declared path that
+    # is a symbolic link removes the link, never what it points to
+    def flat(o):
+        out = []
+        for x in o:
+            out.append(x)
+            if x[0] == "field":
+                out += flat(x[2])
+        return out
+    seen = set()
+    for ds in delete_sites(ctx):
+        b, bb = ds.raw, ds.raw_bb
+        if (b.name, bb) in seen:
+            continue
+        seen.add((b.name, bb))
+        t = b.term(bb)
+        l = operand_local(t["args"][0]) if t["args"] else None
+        res = [x for x in flat(origins(b, l))if x[0] in ("call", "await") and x[1] and re.search(r"::(canonicalize|read_link)$", x[1])] if l is not None else []
+        k = sum(1 for (n_, _) in seen if n_ == b.name) - 1
+        ctx.check(not res, f"{short(ctx.r.outer_fn(b).name)}/{ds.api.split('::')[-1]}/unresolved-path@{k}", [site(b, bb)],
+                  "the deleted path was first resolved through symbolic links: cleaning a declared path that is a link deletes what the link points to", props=["C12"])
 
 
 # ------------------------------------------------------------------ C13
+@rule("C13.CMD-IDENTITY", ["C13", "C02"], """a command resource is identified by its text *and* the directory it runs in: nowhere is the bare command text of a CmdResource used
+      as an identity (compared with another resource's text, or used as the element/key of a set or map) without the directory""", "K4", floor=1)
+def cmd_identity(ctx):
+    f = ctx.f
+    def fields(b, op):
+        return {a[2] for a in b.prov.operand_atoms(op, interproc=False) if a[0] == "field" and path_ends(a[1], "CmdResource")}
+    keyed = re.compile(r"(HashSet|BTreeSet|HashMap|BTreeMap|IndexSet|IndexMap)::<.*>::(insert|contains|contains_key|get|get_mut|entry|remove|replace|take)$")
+    n = 0
+    bad = []
+    for b in f.user_bodies():
+        if f.is_derived(b):
+            continue
+        for bb, t in b.calls():
+            base, decl = t["callee"]["base"], callee_decl(t)
+            args = t["args"]
+            if re.search(r"PartialEq(<.*>)?>?::(eq|ne)$", base) and len(args) == 2:
+                fa, fb_ = fields(b, args[0]), fields(b, args[1])
+                if fa or fb_:
+                    n += 1
+                if fa == {"cmd"} and fb_ == {"cmd"}:
+                    bad.append((b, bb, "two resources are compared by their command text only"))
+            elif keyed.search(decl) and len(args) >= 2:
+                fk = fields(b, args[1])
+                if fk:
+                    n += 1
+                if fk == {"cmd"}:
+                    bad.append((b, bb, f"`{decl.split('::')[-1]}` keyed by the command text only"))
+    users = [b for b in f.user_bodies() if not f.is_derived(b) and any(fields(b, a) for _, t in b.calls() for a in t["args"])]
+    ctx.need(users, "bodies handling CmdResource fields")
+    ctx.check(not bad, "text-and-dir", [site(b, bb) for b, bb, _ in bad] or [f"{len(users)} bodies use CmdResource fields, {n} comparison/key sites"],
+              "; ".join(sorted({w for _, _, w in bad})) + ": the same command text declared in two project directories (two producers' `cat VERSION`) collapses into one resource, and a change of the other producer's output is never seen")
+
+
 @rule("C13.INHERIT", ["C13", "C02"], """for every `X.output` input the resolver appends X's whole output (files and commands) to the consumer's input""", "K1", floor=2)
 def inherit(ctx):
     f = ctx.f
@@ -387,7 +489,7 @@ def inherit(ctx):
     for x in exts:
         got = set()
         for bb, t in x.calls():
-            if re.search(r"extend_from_slice$|::extend$|::append$", callee_base(t)):
+            if re.search(r"extend_from_slice$|::extend$|::append$|::push$|::insert$", callee_base(t)):
                 a0 = atom_fields(x.prov.operand_atoms(t["args"][0], interproc=False), "Resources")
                 a1 = atom_fields(x.prov.operand_atoms(t["args"][1], interproc=False), "Resources") if len(t["args"]) > 1 else set()
                 got |= (a0 & a1)
@@ -425,7 +527,7 @@ def bound_to_declarer(ctx):
         ctx.check(ok, f"{short(b.name)}/project-dir-of-declarer", [site(b, bb)], "the directory given to the target transformation is not the one stored with the project the target was taken from")
 
 
-@rule("C13.CONSUMERS-SEE-ALL", ["C13", "C06"], """the watcher ranges over all file resources of the (extended) input, and the lister over all resources and all their paths""", "K5", floor=2)
+@rule("C13.CONSUMERS-SEE-ALL", ["C13", "C06", "C15"], """the watcher ranges over all file resources of the (extended) input, and the lister over all resources and all their paths""", "K5", floor=2)
 def consumers_see_all(ctx):
     f = ctx.f
     r = ctx.r
@@ -460,6 +562,41 @@ def consumers_see_all(ctx):
                     ctx.check(good, f"{short(w.name)}/only-empty-groups-dropped", [site(w, bb)],
                               "the watcher constructor filters out groups of paths by something other than `no path at all`: declared inputs would not be watched", props=["C13", "C06"])
         ctx.check(ok, f"{short(w.name)}/all-file-resources", [w.loc()], "the watcher does not cover every file resource of the input (inherited ones would not be watched)", props=["C13", "C06"])
+    # every path of every group is handed to the notification back-end: the loop that calls `watch` ranges over the group's paths without restriction
+    # (each group has its own extension filter: a path left out because another group already covers it is seen through the wrong filter)
+    nw = 0
+    for raw in f.user_bodies():
+        for bb, t in raw.calls():
+            if not re.search(r"Watcher>?::watch$", t["callee"]["base"]) or f.is_derived(raw):
+                continue
+            nw += 1
+            # (a `watch` wrapped in a helper is judged where the helper is called)
+            def under_iteration(body, at_bb, depth=0):
+                st = iteration_context(f, body, at_bb)
+                if st or depth >= 3:
+                    return [(body, at_bb, st)]
+                fn_name = r.fn_of(r.outer_fn(body)).name
+                out = []
+                for (cn, cbb) in f.cg.call_sites.get(fn_name, ()):
+                    if cbb is not None and cn in f.bodies and not f.is_derived(f.bodies[cn]):
+                        out += under_iteration(f.bodies[cn], cbb, depth + 1)
+                return out or [(body, at_bb, st)]
+            found = under_iteration(raw, bb)
+            steps = []
+            for (_, _, st) in found:
+                if not st:
+                    steps = []
+                    break
+                steps = steps or st
+                if [c for c in atom_callres(st[0][2]) if re.search(RESTRICTING, c)]:
+                    steps = st
+                    break
+            inner = steps[0] if steps else None
+            restricted = sorted(c for c in atom_callres(inner[2]) if re.search(RESTRICTING, c)) if inner else []
+            ctx.check(inner is not None and not restricted, f"{short(r.fn_of(r.outer_fn(raw)).name)}/every-path-watched", [site(raw, bb)],
+                      "the paths of a group are not all handed to the file watcher" + (f" (restricted by {[short(c) for c in restricted]})" if restricted else " (`watch` is not called under an iteration over the paths)") +
+                      ": changes under a declared path are seen by no watcher, or only through another group's extension filter", props=["C13", "C06", "C15"])
+    ctx.need(nw >= 1, "call of the notification back-end's `watch`")
     # the per-path lister is called once for every declared path of every resource: each of its call sites sits under iterations (loops / iterator
     # adaptors given a closure) none of which is restricted
     level = list(r.listers())
@@ -766,6 +903,27 @@ def filter_atoms(ctx):
         G = guard_region(cb, lambda d: d[0] == "call" and d[1].endswith("::is_empty"), False)
         for s in sends:
             ctx.check(s[0] in G, f"{short(cb.name)}/notify-only-if-relevant", [site(cb, s[0])], "the callback notifies even when no relevant path was in the event (own state writes / temporaries would trigger rebuild loops)")
+
+
+@rule("C16.WORKDIR-PREDICATE", ["C16", "C06"], """the in-work-directory predicate compares whole path components with the work directory name: the name never takes
+      part in a substring / prefix / suffix test of the textual path (`site.zinoma.conf` is an ordinary input file)""", "K4", floor=1)
+def workdir_predicate(ctx):
+    r = ctx.r
+    f = ctx.f
+    def uses_name(x, t):
+        return any(any(a[0] == "constdef" and a[1].endswith("WORK_DIR_NAME") for a in x.prov.operand_atoms(y)) for y in t["args"])
+    preds = {}
+    for x in f.user_bodies():
+        o = f.bodies[r.outer_fn(x).name]
+        if o.ret == "bool" and o.argc >= 1 and "Path" in o.locals[1]["ty"] and any(uses_name(x, t) for _, t in x.calls()):
+            preds.setdefault(o.name, []).append(x)
+    ctx.need(preds, "predicate fn(path) -> bool that mentions WORK_DIR_NAME")
+    textual = re.compile(r"(str>|String|OsStr|OsString|Cow<.*>)::(contains|starts_with|ends_with|find|rfind|matches|rmatches|match_indices|split\w*|strip_prefix|strip_suffix|trim_\w+)$")
+    for name, bodies in sorted(preds.items()):
+        bad = [(x, bb, t) for x in bodies for bb, t in x.calls() if uses_name(x, t) and textual.search(t["callee"]["base"])]
+        ctx.check(not bad, f"{short(name)}/component-equality", [site(x, bb) for x, bb, _ in bad] or [f.bodies[name].loc()],
+                  "the work directory name is searched for inside the text of the path (" + ", ".join(sorted({t["callee"]["base"] for _, _, t in bad})) +
+                  "): files whose name merely contains it are taken for zinoma's own files and their changes never trigger the target")
 
 
 @rule("C16.NOTIFY-UNCONDITIONAL", ["C16", "C06"], """once an event carries a relevant path the callback notifies: the only conditions between the callback's entry and the notification are 'the event is Ok'
